@@ -88,7 +88,7 @@ def key(caller, callee, n):
 
 # ------------------------------------------------------------------ what a panic-capable call is applied to
 
-_PASS = M.IDENTITY_CALLS + [r"Option::<T>::(as_ref|as_mut|as_deref|cloned|copied)$", r"Result::<T, E>::(as_ref|as_mut)$"]
+_PASS = M.IDENTITY_CALLS + [r"ops::Try>::branch$", r"ops::Try::branch$", r"Option::<T>::(as_ref|as_mut|as_deref|cloned|copied)$", r"Result::<T, E>::(as_ref|as_mut)$"]
 
 
 def _ty_short(ty):
@@ -119,7 +119,7 @@ def operand_origin_ex(body, op, steps=40):
                     return ("const", locals().get('cur'))
                 cur, proj = op_place(o2)["l"], [x for x in op_place(o2)["p"] if x != "*"] + proj[1:]
                 continue
-        proj = [x for x in proj if not re.match(r"^\.(Some|Ok|Err)::\d+$", x) and not x.startswith("as ")]   # payload of an Option/Result: same value
+        proj = [x for x in proj if not re.match(r"^\.(Some|Ok|Err|Continue|Break)::\d+$", x) and not x.startswith("as ")]   # payload of an Option/Result: same value
         if proj:
             fields = [x for x in proj if x.startswith(".")]
             idx = [x for x in proj if x.startswith("[")]
@@ -127,7 +127,7 @@ def operand_origin_ex(body, op, steps=40):
                 return ("field %s%s" % (_ty_short(body.local_ty(cur)), "".join(fields)), locals().get('cur'))
             if idx:
                 return ("element of %s" % _ty_short(body.local_ty(cur)), locals().get('cur'))
-        ds = [d for d in M.def_sites(body, cur) if not body.is_cleanup(d[0])]
+        ds = M.real_defs(body, cur)
         if not ds:
             if 1 <= cur <= body.raw["arg_count"]:
                 return ("param %s" % _ty_short(body.local_ty(cur)), locals().get('cur'))
